@@ -25,9 +25,26 @@ POOLSEQ = ["plain", "plain", "synthetic", "plain", "escaped", "plain", "ties", "
 def all_cases(ctx):
     n = 300 if ctx.quick else 3000
     cs = [(("prog", ctx.seed, i), ("prog", i)) for i in range(n)]
+    cs += [(("repeat", k), ("repeat", k)) for k in range(len(REPEATS))]
     if not ctx.quick:
         cs += [(("exprs", k), ("exprs", k)) for k in range(16)]
     return cs
+
+
+# operand patterns with repetitions (primitive instances and operators): every multi-input type at each pattern
+PATTERNS = [["a", "a"], ["a", "a", "a"], ["a", "b", "a"], ["a", "a", "a", "a"], ["b", "a", "b", "b"], ["a", "b", "b", "a", "a"]]
+REPEATS = [(t, pat) for t in ("and", "nand", "or", "nor", "xor", "xnor") for pat in PATTERNS]
+
+
+def repeat_prog(k):
+    t, pat = REPEATS[k]
+    op = {"and": "&", "nand": "&", "or": "|", "nor": "|", "xor": "^", "xnor": "~^"}[t]
+    e = ("id", pat[0])
+    for x in pat[1:]:
+        e = (op, e, ("id", x))
+    stmts = [("prim", t, [("U1", "y1", [("id", x) for x in pat])]), ("assign", [("y2", e)]), ("assign", [("y3", ("~", e))]),
+             ("prim", "buf", [("U2", "w1", [("id", "a")])]), ("prim", t, [("U3", "y4", [("id", "w1")] + [("id", x) for x in pat])])]
+    return {"name": "top", "inputs": ["a", "b"], "outputs": ["y1", "y2", "y3", "y4"], "wires": ["w1"], "stmts": stmts, "bbs": {}}, "plain"
 
 
 def make_prog(ctx, i):
@@ -79,7 +96,7 @@ def run(ctx):
         if p[0] == "exprs":
             exhaustive_exprs(ctx, cgio, p[1])
             continue
-        prog, pool = make_prog(ctx, p[1])
+        prog, pool = repeat_prog(p[1]) if p[0] == "repeat" else make_prog(ctx, p[1])
         bbl = [cg.BlackBox(n, i, o) for n, (i, o) in sorted(vgen.BOXES.items())]
         ref = vgen.compile_ref(prog)
         E = Net.from_spec(ref)
@@ -87,7 +104,7 @@ def run(ctx):
             ctx.harness_error("generated program is cyclic")
             continue
         nl = 3 if ctx.quick else 6
-        layouts = [(p[1] * 7 + 11 * j) % 32 for j in range(nl)]
+        layouts = [(p[1] * 7 + 11 * j) % 32 for j in range(nl)] if p[0] == "prog" else [0, 1]
         for layout in layouts:
             text = vgen.render_program(prog, layout, random.Random(f"lay-{cid}-{layout}"))
             det = {"case": cid, "pool": pool, "layout": layout, "text": text[:2500]}
